@@ -13,6 +13,8 @@
 (* CellSize.tla computed from the raster's OWN metadata, whether they are consistent.      *)
 (*                                                                                         *)
 (* kind "F"  formula case (small integer elevations): every cell of all four outputs       *)
+(*           (NumPy backend, or the same raster as a chunked Dask array - judged against   *)
+(*           the definition, not against NumPy)                                            *)
 (* kind "G"  general raster (any floats): NaN ring, NaN exactly from the cells read, ranges*)
 (* kind "P"  two rasters differing in one cell: the sets of output cells that differ       *)
 (* kind "K"  raster and raster + integer constant: cells that differ (must be none)        *)
@@ -97,7 +99,9 @@ FirstBadF(c, g, cs, n) ==
   IF n = c.H * c.W THEN "ok"
   ELSE LET cl == CellClauseF(c, g, cs, n \div c.W, n % c.W) IN IF cl # "ok" THEN cl ELSE FirstBadF(c, g, cs, n + 1)
 
-VF(c) == IF c.shape_ok # 1 THEN "output_shape" ELSE FirstBadF(c, F2(c.g), CellSizeOf(c), 0)
+\* (lazy_ok: on a Dask-backed raster every result must still be a dask array before it is computed)
+VF(c) == IF c.lazy_ok # 1 THEN "dask_result_not_lazy"
+         ELSE IF c.shape_ok # 1 THEN "output_shape" ELSE FirstBadF(c, F2(c.g), CellSizeOf(c), 0)
 
 \* ------------------------------------------------------------------------------- kind "G"
 \* nan : H x W 0/1 mask of the input's NaN cells; out.<fn> : H x W integers (NAN = NaN)
